@@ -2,6 +2,7 @@
   C10 — Cross-transaction (gtxn) contexts are sound for other group members.
 -/
 import TealerModel.Props.Common
+import TealerModel.Props.TieMatchers
 namespace Tealer.C10
 
 /-- attribution: a value is matched to an absolute-index key only if it is a group read whose index is classified
@@ -89,5 +90,28 @@ theorem C10_merge_sound_addr (v base : AddrSet) (x : String) (hv : Addr.gamma v 
     Addr.gamma (addrInter v base) x := Addr.inter_sound v base x hv hb
 
 example : (gtxKeys feeAnalysis).length = 62 := by decide +kernel
+
+/-- WHICH TRANSACTION A READ REFERS TO IS DECIDED BY THE PYTHON'S OWN CODE.  group_helpers._get_index /
+    get_index_and_field and key_helpers.is_value_matches_key, translated statement by statement from /repo's Python on this
+    run, compute exactly the model's `getIndex` / `getIndexAndField` / `valueMatchesKey` on the stack value the Python
+    holds: `txn f` is this transaction, `gtxn i f` / `int i; gtxns f` the absolute index i, `txn GroupIndex; int k; ±; gtxns f`
+    (either operand order for `+`) the offset ±k, anything else unknown; and a value belongs to a key exactly when field,
+    kind of index and index agree -/
+theorem C10_tie_index_classification (intcs : Option (List Nat)) (ins : List Ins) (key : Key) (n p o : Nat) (r : Ref)
+    (fld : Option String) :
+    Generated.getIndex (TieM.envOf intcs) (treeOf (constructAst ins) (n + 1) (some (p, o))) =
+        TieM.fromIdx (getIndex intcs (constructAst ins) p) ∧
+      Generated.getIndexAndField (TieM.envOf intcs) (treeOf (constructAst ins) (n + 2) (some (p, o))) =
+        TieM.fromIF (getIndexAndField intcs (constructAst ins) p) ∧
+      Generated.isValueMatchesKey (TieM.envOf intcs) key (treeOf (constructAst ins) (n + 2) r) fld =
+        valueMatchesKey intcs (constructAst ins) key r fld :=
+  ⟨TieM.getIndex_tie intcs _ (TieM.arity_constructAst ins) n p o,
+   TieM.getIndexAndField_tie intcs _ (TieM.arity_constructAst ins) n p o,
+   TieM.isValueMatchesKey_tie intcs _ (TieM.arity_constructAst ins) key n r fld⟩
+
+/-- `is_int_push_ins`, translated from /repo's Python on this run, is the model's `intPush` -/
+theorem C10_tie_int_push (intcs : Option (List Nat)) (op : Op) :
+    Generated.isIntPushIns (TieM.envOf intcs) op = TieM.ipOf intcs op :=
+  TieM.isIntPush_tie intcs op
 
 end Tealer.C10
